@@ -32,6 +32,13 @@ def run(ctx):
     except RuntimeError as e:
         ctx.violation(str(e), {"obligation": "build"}, found_input=False)
         return
+    # a second build: substituted group/passwd databases + a switch that makes the kernel's identity lookup fail
+    exe2, err2 = rig.build_daemon(ctx, name="munged-c03f", san="address",
+                                  extra_src=[os.path.join(vlib.HARNESS, "nss_shim.c"), os.path.join(vlib.HARNESS, "peercred_fault.c")],
+                                  wraps=credcorr.NSS_WRAPS + ["getsockopt"])
+    if exe2 is None:
+        ctx.violation("munged does not build with the identity-fault shim: " + err2[-300:], {"obligation": "build"}, found_input=False)
+        return
     rng = ctx.rng
     cr = credcorr.CredRig(ctx, exe, orc, tag="c03", nthreads=1)
     if not cr.ok:
@@ -106,6 +113,59 @@ def run(ctx):
             if d is None or d["error_num"] != want:
                 fails.append({"why": "credential restricted to uid=%d gid=%d decoded by peer uid=%d gid=%d gave error %s, expected %d"
                                      % (u, g, du, dg, d and d["error_num"], want)})
+    # --- the decoder's identity in the supplementary-group decision: membership of the DECODING uid counts, never
+    #     that of the uid recorded in the credential
+    db = {"groups": [(800, ["mem"]), (801, ["enc"])], "users": [("mem", 6001), ("enc", 6002), ("out", 6003)]}
+    members = [(6001, 800), (6002, 801)]
+    flag = os.path.join(ctx.tmp, "peercred-fault")
+    cg = credcorr.CredRig(ctx, exe2, orc, tag="c03g", nthreads=1, nss_db=db)
+    cg.d.env["VERIF_PEERCRED_FAULT"] = flag
+    if cg.ok:
+        cg.d.stop()
+        cg.d.start()          # restart with the environment variable in place
+        import time as _t
+        _t.sleep(0.4)
+        for (eu, ag, du, want) in ((6002, 800, 6001, 0), (6001, 800, 6003, 18), (6001, 800, 6002, 18), (6002, 801, 6001, 18), (6003, 801, 6002, 0)):
+            r, _ = cg.encode_both(uid=eu, gid=9000 + eu, auth_gid=ag, data=b"group restricted")
+            if r is None or r["error_num"] != 0:
+                continue
+            d, m, diff = cg.decode_both(r["data"], uid=du, gid=9500, members=members)
+            ctx.count(("dec-suppgroup", eu, ag, du))
+            dist["dec-suppgroup"] = dist.get("dec-suppgroup", 0) + 1
+            if diff:
+                mism.append(cg.mismatches[-1])
+            if d is None or d["error_num"] != want:
+                fails.append({"why": "credential of uid %d restricted to gid %d, decoded by uid %d (supplementary membership: %s): error %s, expected %d "
+                                     "- the membership that counts is the decoding client's" % (eu, ag, du, (du, ag) in members, d and d["error_num"], want),
+                              "kind": "dec-suppgroup"})
+        # --- fault: the kernel's identity lookup fails.  No credential may be issued or decoded on a guessed identity.
+        open(flag, "w").close()
+        for (u, g) in ((4242, 2424242424), (0, 0), (1000, 1000)):
+            r, st = rig.encode(cg.d.sock, uid=u, gid=g, data=b"identity lookup fails")
+            ctx.count(("peercred-fault-enc", u, g))
+            dist["peercred-fault"] = dist.get("peercred-fault", 0) + 1
+            if r is not None and r["error_num"] == 0:
+                p = cg.o.parse(r["data"])
+                fails.append({"why": "SO_PEERCRED lookup failed for a client with euid=%d egid=%d, yet a credential was issued recording identity %s"
+                                     % (u, g, p and (p["msg"]["cred_uid"], p["msg"]["cred_gid"])), "kind": "peercred-fault"})
+        os.unlink(flag)
+        good, _ = rig.encode(cg.d.sock, uid=31, gid=32, auth_uid=77, data=b"restricted to 77")
+        open(flag, "w").close()
+        if good and good["error_num"] == 0:
+            for (u, g) in ((77, 1), (78, 1), (0, 0)):
+                d, st = rig.decode(cg.d.sock, good["data"], uid=u, gid=g)
+                ctx.count(("peercred-fault-dec", u, g))
+                dist["peercred-fault"] = dist.get("peercred-fault", 0) + 1
+                if d is not None and d["error_num"] in (0, 15, 16, 17):
+                    fails.append({"why": "SO_PEERCRED lookup failed for a decoding client, yet the restricted credential was disclosed (error %d)" % d["error_num"],
+                                  "kind": "peercred-fault"})
+        os.unlink(flag)
+        c = rig.canary(cg.d.sock)
+        if c:
+            fails.append({"why": "after the identity-lookup faults: " + c, "kind": "peercred-fault"})
+        rcg, repg = cg.stop()
+        if repg.strip():
+            ctx.violation("sanitizer report from the daemon during the C03 fault cases", {"report": repg[:3000]}, found_input=False)
     rc, rep = cr.stop()
     if rep.strip():
         ctx.violation("sanitizer report from the daemon during C03 cases", {"report": rep[:3000]}, found_input=False)
